@@ -40,10 +40,13 @@ def m_vec_new(I, path, args):
          r'first|last|first_mut|last_mut|get|get_mut|as_slice|as_mut_slice|iter|iter_mut|drain|reserve|swap_remove|'
          r'retain|dedup|contains|sort|sort_by|sort_by_key|sort_unstable|sort_unstable_by_key|binary_search_by_key|'
          r'binary_search|binary_search_by|split_off|to_vec|capacity|shrink_to_fit|into_boxed_slice|extend|resize|'
-         r'starts_with|ends_with|concat|join|split_at|swap|iter_mut|leak|is_ascii|split_first|split_last|windows|chunks|copy_from_slice|fill)$',
+         r'starts_with|ends_with|concat|join|split_at|swap|iter_mut|leak|is_ascii|split_first|split_last|windows|chunks|copy_from_slice|fill|'
+         r'sort_unstable_by|dedup_by_key|retain_mut|rotate_left|rotate_right|clone_from_slice|repeat|first_chunk|split_at_checked|extend_from_within|chunks_exact|is_sorted|to_owned|iter_rev)$',
          r'^(core|std)::slice::(len|is_empty|first|last|first_mut|last_mut|get|get_mut|iter|iter_mut|reverse|contains|sort|'
          r'sort_by|sort_by_key|sort_unstable|sort_unstable_by_key|binary_search_by_key|binary_search|binary_search_by|to_vec|starts_with|ends_with|'
-         r'concat|join|split_at|swap|into_vec|is_ascii|split_first|split_last|windows|chunks|copy_from_slice|fill)$')
+         r'concat|join|split_at|swap|into_vec|is_ascii|split_first|split_last|windows|chunks|copy_from_slice|fill|'
+         r'sort_unstable_by|rotate_left|rotate_right|clone_from_slice|repeat|split_at_checked|chunks_exact|is_sorted|to_owned)$',
+         r'^<\[.*\]>::(concat|join|to_vec|to_owned|len|is_empty|iter|first|last|contains|starts_with|ends_with|get|split_at|copy_from_slice|sort|reverse)$')
 def m_vec_method(I, path, args):
     meth = strip_generics(path).split('::')[-1]
     v = _vec(args[0])
@@ -145,7 +148,7 @@ def m_vec_method(I, path, args):
         f = args[1]
         _sort(I, v, lambda a, b: val_lt(I, I.call_value(f, [mkref(a)]), I.call_value(f, [mkref(b)])))
         return UNIT()
-    if meth == 'sort_by':
+    if meth in ('sort_by', 'sort_unstable_by'):
         f = args[1]
         _sort(I, v, lambda a, b: I.call_value(f, [mkref(a), mkref(b)]).variant == 0)
         return UNIT()
@@ -158,7 +161,7 @@ def m_vec_method(I, path, args):
     if meth == 'binary_search_by':
         f = args[1]
         return _binary_search(I, items, lambda e: I.call_value(f, [e]).variant - 1, v)
-    if meth == 'to_vec':
+    if meth in ('to_vec', 'to_owned'):
         return PyVec([clone_val(x) for x in items])
     if meth == 'split_off':
         n = _concrete_index(I, args[1], len(items))
@@ -217,6 +220,83 @@ def m_vec_method(I, path, args):
         for k in range(len(items)):
             lst[off + k] = copy_val(args[1])
         return UNIT()
+    if meth in ('concat', 'join'):
+        sep = None
+        if meth == 'join' and len(args) > 1:
+            sep = deref(args[1])
+        parts = [deref(x) for x in items]
+        if parts and not isinstance(parts[0], (PyVec, PySlice)):
+            # strings
+            from . import strings
+            out = ''
+            for k, p in enumerate(parts):
+                if k and sep is not None:
+                    out = strings.concat2(out, sep if not isinstance(sep, int) else chr(sep))
+                out = strings.concat2(out, p)
+            return out
+        out = []
+        for k, p in enumerate(parts):
+            if k and sep is not None:
+                out.extend(clone_val(x) for x in (sep.items if isinstance(sep, (PyVec, PySlice)) else [sep]))
+            out.extend(clone_val(x) for x in p.items)
+        return PyVec(out)
+    if meth in ('chunks', 'chunks_exact', 'windows'):
+        from .iterators import ListIter
+        n = _concrete_index(I, args[1], 1 << 30)
+        if n == 0:
+            raise Panic('chunk size must be non-zero')
+        if meth == 'windows':
+            return ListIter([_subslice(v, k, k + n) for k in range(0, len(items) - n + 1)])
+        last = len(items) - (len(items) % n) if meth == 'chunks_exact' else len(items)
+        return ListIter([_subslice(v, k, min(k + n, len(items))) for k in range(0, last, n)])
+    if meth == 'split_at_checked':
+        n = _concrete_index(I, args[1], len(items))
+        if n > len(items):
+            return NONE()
+        return Some(Tuple(_subslice(v, 0, n), _subslice(v, n, len(items))))
+    if meth in ('rotate_left', 'rotate_right'):
+        n = _concrete_index(I, args[1], len(items))
+        if n > len(items):
+            raise Panic('rotate out of bounds')
+        k = n if meth == 'rotate_left' else len(items) - n
+        seg = items[k:] + items[:k]
+        lst = v.items if isinstance(v, PyVec) else v.base.items
+        off = 0 if isinstance(v, PyVec) else v.start
+        lst[off:off + len(seg)] = seg
+        return UNIT()
+    if meth == 'clone_from_slice':
+        o = _vec(args[1]).items
+        if len(o) != len(items):
+            raise Panic('clone_from_slice length mismatch')
+        lst = v.items if isinstance(v, PyVec) else v.base.items
+        off = 0 if isinstance(v, PyVec) else v.start
+        for k, x in enumerate(o):
+            lst[off + k] = clone_val(x)
+        return UNIT()
+    if meth == 'repeat':
+        n = _concrete_index(I, args[1], 1 << 20)
+        return PyVec([clone_val(x) for _ in range(n) for x in items])
+    if meth == 'retain_mut':
+        keep = []
+        for idx in range(len(v.items)):
+            if I.ctx.branch(I.call_value(args[1], [Ref(LV(v.items, idx))])):
+                keep.append(v.items[idx])
+        v.items[:] = keep
+        return UNIT()
+    if meth == 'dedup_by_key':
+        out = []
+        lastk = None
+        for x in v.items:
+            cell = [x]
+            k = I.call_value(args[1], [Ref(LV(cell, 0))])
+            if out and I.ctx.branch(val_eq(lastk, k)):
+                continue
+            out.append(cell[0])
+            lastk = k
+        v.items[:] = out
+        return UNIT()
+    if meth == 'is_sorted':
+        return z_all(z_not(val_lt(I, items[k + 1], items[k])) for k in range(len(items) - 1))
     if meth == 'dedup':
         out = []
         for x in v.items:
